@@ -426,12 +426,13 @@ class SoftwareSwitchBase (object):
     self.log.debug("Send PacketIn")
     if reason is None:
       reason = OFPR_NO_MATCH
+    total_len = len(packet)
     if data_length is not None and len(packet) > data_length:
       if buffer_id is not None:
         packet = packet[:data_length]
 
     msg = ofp_packet_in(xid = 0, in_port = in_port, buffer_id = buffer_id,
-                        reason = reason, data = packet)
+                        reason = reason, data = packet, total_len = total_len)
 
     self.send(msg)
 
